@@ -504,6 +504,11 @@ func (ec *evalCtx) specCall(call *ast.CallExpr) Value {
 		// the channel is fresh) and its capacity
 		need(1)
 		return App(map[string]string{"chantag": "chan.tag", "chancap": "chan.cap"}[name], SInt, scalar(arg(0)))
+	case "wraps":
+		// wraps(e, cause): e is cause, or e was built from it with %w (errors.Is(e, cause) holds)
+		need(2)
+		a, b := scalar(arg(0)), scalar(arg(1))
+		return Or(Eq(a, b), App("err.wraps", SBool, a, b))
 	case "chanopen":
 		need(1)
 		return Select(chanOpenArr(ec.st), scalar(arg(0)))
